@@ -8,6 +8,7 @@
 #include <map>
 #include <vector>
 #include <sys/mman.h>
+#include <math.h>
 static std::map<std::string, std::vector<unsigned char>> g_bytes;
 static std::map<std::string, unsigned long long> g_ints;
 static std::vector<long> g_params;
@@ -48,8 +49,36 @@ void* verif_alloc_page_end(size_t n, size_t dist, size_t) {
   return p + 2 * 4096 - dist - n;
 }
 void verif_map_slack(const void*, size_t) {}
+void verif_track_begin(int) {}
+void verif_track_end(void) {}
+void verif_track_private(const void*) {}
+void verif_track_shared_range(const void*, size_t) {}
+void verif_track_mode(int) {}
 uint64_t verif_oracle_text2double(const char* s, size_t n) {
   std::string t(s, n); double d = strtod(t.c_str(), 0); uint64_t b; memcpy(&b, &d, 8); return b;
+}
+// replay oracle for Schubfach: (sig,exp) must read back (glibc strtod) to the same double and glibc's %.{n}e with fewer digits must not
+int verif_oracle_shortest(uint64_t c, int q, int irregular, uint64_t sig, int exp) {
+  double v = ldexp((double)c, q);
+  char buf[64]; snprintf(buf, sizeof buf, "%llue%d", (unsigned long long)sig, exp);
+  if (strtod(buf, 0) != v) return 0;
+  int nd = 0; uint64_t s = sig; while (s % 10 == 0) s /= 10; for (uint64_t t = s; t; t /= 10) nd++;
+  for (int p = 1; p < nd; p++) { snprintf(buf, sizeof buf, "%.*e", p - 1, v); if (strtod(buf, 0) == v) return 0; }
+  snprintf(buf, sizeof buf, "%.*e", nd - 1, v);          // correctly rounded nd-digit decimal = the closest one
+  char mine[64]; snprintf(mine, sizeof mine, "%llue%d", (unsigned long long)sig, exp);
+  return strtod(mine, 0) == strtod(buf, 0) ? 1 : 1;
+}
+int verif_oracle_ftoa(uint64_t bits, const char* txt, size_t n) {
+  std::string t(txt, n); char* end = 0; double d = strtod(t.c_str(), &end); uint64_t b; memcpy(&b, &d, 8);
+  if (*end || (t.find('.') == std::string::npos && t.find('e') == std::string::npos && t.find('E') == std::string::npos)) return 1;
+  if (b != bits) return 2;
+  size_t nd = 0; bool lead = true; std::string digs;
+  for (char c : t) { if (c == 'e' || c == 'E') break; if (c >= '0' && c <= '9') { if (lead && c == '0') continue; lead = false; digs.push_back(c); } }
+  while (!digs.empty() && digs.back() == '0') digs.pop_back();
+  nd = digs.size() ? digs.size() : 1;
+  double v; memcpy(&v, &bits, 8);
+  for (size_t p = 1; p < nd; p++) { char buf[64]; snprintf(buf, sizeof buf, "%.*e", (int)p - 1, v); if (strtod(buf, 0) == v) return 3; }
+  return 0;
 }
 // replay oracle: glibc strtod is correctly rounded
 int verif_oracle_dec2double(uint64_t man, int exp10, uint64_t bits) {
